@@ -64,6 +64,6 @@ def main():
     }
     json.dump(m, open(os.path.join(V, "MANIFEST.json"), "w"), indent=1)
 
-HOOK_COMMITS = []
+HOOK_COMMITS = ["5c76afc", "d2ac362", "a91511b"]
 if __name__ == "__main__":
     main()
